@@ -1,9 +1,12 @@
 import SamlModel.Model.Sso
+import SamlModel.Props.SendBack
 set_option linter.unusedSimpArgs false
 set_option linter.unusedVariables false
 /-!
   Lemmas about the SSO model shared by C02, C05, C06, C07, C08, C09 (helper lemmas live here so
   that the property files contain property statements only).
+  `Response.sendBackResponse`, through which every failure reply of the chain is written, is translated and characterised
+  in Props.SendBack (imported here: a change to it breaks `sendBack_renders` and with it every property built on this file).
 -/
 namespace Sso
 open Go Gen Consts
@@ -12,7 +15,7 @@ open Go Gen Consts
     the code before/after the chain) is the one `Model.Sso` was written against -/
 theorem sso_skeleton_current : Gen.Facts.ssoChain = Expected.ssoChain := by decide
 
-theorem sso_sources_current : FactsUtil.sameHashes ["provider.getAuthRequestFromRequest", "provider.Response.sendBackResponse",
+theorem sso_sources_current : FactsUtil.sameHashes ["provider.getAuthRequestFromRequest",
     "provider.IdentityProvider.GetServiceProvider",
     "provider.IdentityProvider.GetMetadata", "xml.DecodeAuthNRequest"] = true := by decide
 
